@@ -114,8 +114,10 @@ func loadKnown(path string) []KnownFinding {
 	var f struct {
 		Findings []KnownFinding `json:"findings"`
 	}
-	if json.Unmarshal(b, &f) != nil {
-		return nil
+	if err := json.Unmarshal(b, &f); err != nil {
+		// a present but unreadable list must not silently un-mute everything: harness trouble
+		fmt.Fprintf(os.Stderr, "simrt: cannot parse known findings %s: %v\n", path, err)
+		os.Exit(3)
 	}
 	return f.Findings
 }
